@@ -492,9 +492,13 @@ func ruleBtOrder(c *Ctx, r *R) {
 	r.check(firstAppend.IsValid() && firstAppend < loop.Pos(), "fault-first", c.Pos(fd), "the failing operation's line comes first", "btErr no longer reports the failing instruction before the call chain")
 	desc := false
 	if init, ok := loop.Init.(*ast.AssignStmt); ok && len(init.Rhs) == 1 {
-		if _, ok := c.lenMinus(init.Rhs[0], nosp(c.Src(unparen(init.Rhs[0]).(*ast.BinaryExpr).X.(*ast.CallExpr).Args[0]))); ok {
-			if p, ok := loop.Post.(*ast.IncDecStmt); ok && p.Tok == token.DEC {
-				desc = true
+		if be, ok := unparen(init.Rhs[0]).(*ast.BinaryExpr); ok {
+			if lc, ok := unparen(be.X).(*ast.CallExpr); ok && c.CalleeName(lc) == "builtin.len" && len(lc.Args) == 1 {
+				if _, ok := c.lenMinus(init.Rhs[0], nosp(c.Src(lc.Args[0]))); ok {
+					if p, ok := loop.Post.(*ast.IncDecStmt); ok && p.Tok == token.DEC {
+						desc = true
+					}
+				}
 			}
 		}
 	}
